@@ -39,7 +39,7 @@ class Actor:
 
 
 class Scheduler:
-    def __init__(self, strategy, max_steps=20000, watchdog_s=30.0):
+    def __init__(self, strategy, max_steps=20000, watchdog_s=180.0):
         self.strategy = strategy
         self.actors: dict[str, Actor] = {}
         self.order: list[str] = []
@@ -340,7 +340,7 @@ def _preemptions(alts, choices):
 # --------------------------------------------------------------------------- exploration driver
 
 
-def run_one(scenario, strategy, sql=False, lines=None, max_steps=20000, shims=None, on_step=None, watchdog_s=30.0):
+def run_one(scenario, strategy, sql=False, lines=None, max_steps=20000, shims=None, on_step=None, watchdog_s=180.0):
     """Build the scenario, run one schedule, call finish(). Returns result dict."""
     from vlib import sqlhook
     sc = Scheduler(strategy, max_steps=max_steps, watchdog_s=watchdog_s)
